@@ -1,6 +1,6 @@
 (* C12 - Revocation results are complete, positional and internally consistent.
    Statements only; proofs in Proofs/Revocation.v. *)
-From NCG Require Import Model.Revocation Proofs.Ocsp Proofs.CrlCheck Proofs.Revocation.
+From NCG Require Import Model.Revocation Proofs.Ocsp Proofs.CrlCheck Proofs.Revocation Run.RevSpec Proofs.ReflectRev.
 
 (* exactly one result per certificate, in chain order, slot i describing certificate i; the root
    slot is NonRevokable; an empty or non-conforming chain gives the invalid-chain error and no results *)
@@ -36,3 +36,16 @@ Theorem C12_ok_never_with_revoked : forall w st c, cr_result (fst (check_cert w 
   forall s, In s (cr_servers (fst (check_cert w st c))) -> sr_result s <> RRevoked.
 Proof. exact ok_no_revoked_entry. Qed.
 Print Assumptions C12_ok_never_with_revoked.
+
+(* the consistency test that the correspondence run applies to every result the IMPLEMENTATION returned
+   (Run/C12.v, classes 5) is the declarative Consistent above, and the standalone OCSP variant is its
+   OCSP-only form with the "no responder" result spelled out *)
+Theorem C12_checked_consistency_is_Consistent : forall c r, consistent_b c r = true <-> Consistent c r.
+Proof. exact consistent_b_iff. Qed.
+Print Assumptions C12_checked_consistency_is_Consistent.
+
+Theorem C12_checked_standalone_consistency : forall c r, consistent_ocsp_b c r = true <->
+  (c_ocsp c = [] /\ r = CRes RNonRevokable [SRes RNonRevokable 0] MOCSP) \/
+  (c_ocsp c <> [] /\ cr_method r = MOCSP /\ OcspEntries (c_ocsp c) (cr_result r) (cr_servers r)).
+Proof. exact consistent_ocsp_b_iff. Qed.
+Print Assumptions C12_checked_standalone_consistency.
